@@ -371,7 +371,7 @@ const LOWER_NAMES: [&str; 8] = ["out", "x", "my_var", "v1", "é", "res.a", "ß2"
 const MIXED_NAMES: [&str; 12] = ["Out", "X", "myVar", "V1", "RESULT", "res.A", "éA", "Äpfel", "éÉ", "Σx", "straße_Ü", "ǅ1"];
 const LOWER_LABELS: [&str; 5] = [":start", ":l1", ":end_loop", ":é", ":a.b"];
 const MIXED_LABELS: [&str; 8] = [":Start", ":L1", ":endLoop", ":END", ":a.B", ":Étiquette", ":übEr", ":Ω"];
-const WORDS: [&str; 12] = ["hello", "World", "ABC", "x1", "\"two words\"", "\"Quoted UP\"", "${x}", "${Y}", "%{z}", "é", "a=b", "1"];
+const WORDS: [&str; 18] = ["hello", "World", "ABC", "x1", "\"two words\"", "\"Quoted UP\"", "${x}", "${Y}", "%{z}", "é", "a=b", "1", "a;b", "\"semi; colon\"", "end;", "a\\nb", "\"tab\\there\"", "${1}"];
 
 fn words(rng: &mut Rng) -> String {
     let n = rng.below(4);
